@@ -19,6 +19,7 @@ type Env struct {
 	old    *State
 	pkg    *types.Package
 	depth  int
+	cur    bool // mid-function clause (loop invariant, assert-call, assert-update): a reassigned parameter that lives in a cell denotes its current value
 }
 
 func (e *Env) with(name string, t Term) *Env {
@@ -319,6 +320,15 @@ func (v *FnVC) substr(s, lo, hi string) string {
 }
 
 func (v *FnVC) evalIdent(name string, env *Env) Term {
+	if env.cur && v.Fn != nil && env.st != v.entry { // inside old(): the entry value of the parameter
+		for _, p := range v.Fn.Params {
+			if p.Name() == name {
+				if t, ok := v.cellVar(name, env.st); ok {
+					return t
+				}
+			}
+		}
+	}
 	if t, ok := env.vars[name]; ok {
 		return t
 	}
@@ -340,9 +350,9 @@ func (v *FnVC) evalIdent(name string, env *Env) Term {
 	}
 	// ghost var
 	if g := v.W.GhostVar(name); g != nil {
-		_, so := v.sortOfSpecType(g.Sort, env.pkg)
+		gt, so := v.sortOfSpecType(g.Sort, env.pkg)
 		key := v.regKey("GV:"+name, so)
-		return Term{S: v.heapGet(env.st, key), Sort: so}
+		return Term{S: v.heapGet(env.st, key), Sort: so, T: gt}
 	}
 	// package-level constant
 	if env.pkg != nil {
@@ -1076,6 +1086,7 @@ func (v *FnVC) loopEnv(h *ssa.BasicBlock, li *LoopInfo, phiVal func(*ssa.Phi) Te
 	env := v.baseEnv()
 	st := v.cur
 	env.st = st
+	env.cur = true
 	phiByName := map[string]*ssa.Phi{}
 	for _, ins := range h.Instrs {
 		if p, ok := ins.(*ssa.Phi); ok {
@@ -1200,28 +1211,30 @@ func (v *FnVC) localByName(name string, at *ssa.BasicBlock, st *State) (Term, bo
 	var bestBlock *ssa.BasicBlock
 	bestIdx := -1
 	for _, b := range v.Fn.Blocks {
-		if !(b.Dominates(at)) || b == at {
-			if b != at {
-				continue
-			}
+		if !b.Dominates(at) {
+			continue
 		}
 		for i, ins := range b.Instrs {
-			d, ok := ins.(*ssa.DebugRef)
-			if !ok {
+			var val ssa.Value
+			isAddr := false
+			switch d := ins.(type) {
+			case *ssa.Phi:
+				// a phi carries the name of the source variable it merges: the variable's value from this block on
+				if d.Comment != name {
+					continue
+				}
+				val = d
+			case *ssa.DebugRef:
+				if identName(d) != name || b == at {
+					continue // debug refs inside `at` itself come after its entry
+				}
+				val, isAddr = d.X, d.IsAddr
+			default:
 				continue
 			}
-			id, ok := d.Expr.(interface{ String() string })
-			_ = id
-			if identName(d) != name {
-				continue
-			}
-			if b == at {
-				// only debug refs among the leading phis count at block entry; skip
-				continue
-			}
-			// prefer the dominating block closest to `at`
-			if bestBlock == nil || bestBlock.Dominates(b) && (b != bestBlock || i > bestIdx) {
-				best, bestAddr, bestBlock, bestIdx = d.X, d.IsAddr, b, i
+			// prefer the dominating block closest to `at`, and the last binding inside it
+			if bestBlock == nil || (bestBlock.Dominates(b) && (b != bestBlock || i > bestIdx)) {
+				best, bestAddr, bestBlock, bestIdx = val, isAddr, b, i
 			}
 		}
 	}
@@ -1231,6 +1244,11 @@ func (v *FnVC) localByName(name string, at *ssa.BasicBlock, st *State) (Term, bo
 	if bestAddr {
 		l := v.locOf(best)
 		return v.load(st, l), true
+	}
+	if _, defined := v.vals[best]; !defined {
+		if _, isPhi := best.(*ssa.Phi); isPhi {
+			return Term{}, false // a phi of a block that is not encoded yet
+		}
 	}
 	return v.val(best), true
 }
